@@ -233,6 +233,7 @@ func (b *BasicService) StopAsync() {
 		// no need to do anything
 		return
 	}
+	verifYield("StopAsync.checked")
 
 	terminated, _ := b.switchState(New, Terminated, func() {
 		// Service wasn't started yet, and it won't be now.
